@@ -26,6 +26,8 @@ import (
 	"math/rand"
 	"net"
 	"os"
+	"runtime"
+	"sync"
 	"sync/atomic"
 	"testing"
 	"time"
@@ -72,6 +74,9 @@ type verifC11DNS struct {
 	answers atomic.Int64
 	tooLong atomic.Int64
 	serveEr chan error
+
+	dead       atomic.Bool // a control registration stayed unanswered: stop sending
+	controlsOK atomic.Int64
 }
 
 type verifC11Sock struct {
@@ -167,30 +172,148 @@ func (h *verifC11DNS) verifQuery(p []byte, id uint16) []byte {
 	return b
 }
 
-// verifPing sends a well-formed registration on the socket and waits for the answer.
-func (h *verifC11DNS) verifPing(s *verifC11Sock) bool {
+func (h *verifC11DNS) verifControlOn(c *net.UDPConn, id uint16, wait time.Duration) bool {
+	q := h.verifQuery(h.ping, id)
+	if q == nil {
+		panic("verif infrastructure: the ping registration does not fit a DNS name")
+	}
+	c.Write(q)
+	h.pings.Add(1)
+	c.SetReadDeadline(time.Now().Add(wait))
 	buf := make([]byte, 4096)
-	for try := 0; try < 3; try++ {
-		id := uint16(0xf000 + try)
-		q := h.verifQuery(h.ping, id)
-		if q == nil {
-			panic("verif infrastructure: the ping registration does not fit a DNS name")
+	for {
+		n, err := c.Read(buf)
+		if err != nil {
+			return false
 		}
-		s.c.Write(q)
-		h.pings.Add(1)
-		s.c.SetReadDeadline(time.Now().Add(20 * time.Second))
-		for {
-			n, err := s.c.Read(buf)
-			if err != nil {
-				break
+		h.answers.Add(1)
+		if n >= 2 && buf[0] == byte(id>>8) && buf[1] == byte(id) {
+			return true
+		}
+	}
+}
+
+// verifPing is the CONTROL exchange: a well-formed registration, which a healthy DNS registrar answers.
+// Unanswered => retried twice on fresh sockets => the stacks decide: the responder's receive loop
+// parked in a channel operation / select / lock instead of its socket read on three scans = hang
+// (violation with the stack), anything else = inconclusive.  Either way the run stops sending.
+func (h *verifC11DNS) verifPing(s *verifC11Sock) bool {
+	if h.dead.Load() {
+		return false
+	}
+	if h.verifControlOn(s.c, 0xf000, 10*time.Second) {
+		h.controlsOK.Add(1)
+		return true
+	}
+	for try := 1; try <= 2; try++ {
+		uc, err := net.DialUDP("udp", nil, h.addr)
+		if err != nil {
+			panic(fmt.Sprintf("verif infrastructure: %v", err))
+		}
+		ok := h.verifControlOn(uc, uint16(0xf000+try), 10*time.Second)
+		uc.Close()
+		if ok {
+			h.controlsOK.Add(1)
+			h.rec.Count("controls_answered_only_on_retry", 1)
+			return true
+		}
+	}
+	if !h.dead.CompareAndSwap(false, true) {
+		return false
+	}
+	blocked, found, state, stack := kit.C11LoopBlocked("responder.(*Responder).RecvAndRespond", "RecvAndRespond.func")
+	d := map[string]interface{}{"receive_loop_found": found, "receive_loop_state": state, "receive_loop_stack": stack,
+		"request_goroutines_alive": len(kit.InFunc(kit.Stacks(), "RecvAndRespond.func1")), "datagrams_sent_so_far": h.sent.Load(), "controls_answered_so_far": h.controlsOK.Load()}
+	if found && blocked {
+		h.rec.Violation("hang:dns-registrar:receive-loop-blocked", "a well-formed control registration got no answer (3 attempts, 2 on fresh sockets): the DNS registrar's receive loop is parked in ["+state+
+			"], not in its socket read – it will never answer a request again", d)
+	} else {
+		h.rec.Inconclusive("a well-formed control registration got no answer (3 attempts) but the receive loop is not stably parked outside its socket read", d)
+	}
+	return false
+}
+
+// verifAlive: the one DNS registrar of this run is fed bursts (300, 1 000, 5 000; one socket and four
+// at once) of requests of each class that it drops without an answer – plaintext that is not a
+// C2SWrapper, the QR bit set, not a Noise message – and of the answered classes, each burst in chunks
+// that fit the socket buffer with a CONTROL registration after every chunk and at the end.
+func (h *verifC11DNS) verifAlive() {
+	type junk struct {
+		name string
+		gen  func(r *rand.Rand) []byte
+	}
+	classes := []junk{
+		{"plaintext-not-a-wrapper(dropped)", func(r *rand.Rand) []byte {
+			p := make([]byte, 1+r.Intn(40))
+			r.Read(p)
+			p[0] = 0xff // an invalid protobuf tag
+			return h.verifQuery(p, uint16(r.Intn(0x7fff)))
+		}},
+		{"qr-bit-set(no answer)", func(r *rand.Rand) []byte {
+			q := h.verifQuery(h.ping, uint16(r.Intn(0x7fff)))
+			q[2] |= 0x80
+			return q
+		}},
+		{"not-a-noise-message(dropped)", func(r *rand.Rand) []byte {
+			q := h.verifQuery(h.ping, uint16(r.Intn(0x7fff)))
+			q[20] ^= 0x01 // one base32 character of the encrypted request
+			if q[20] < 'a' || q[20] > 'z' {
+				q[20] = 'b'
 			}
-			h.answers.Add(1)
-			if n >= 2 && buf[0] == byte(id>>8) && buf[1] == byte(id) {
-				return true
+			return q
+		}},
+		{"registration-refused(answered)", func(r *rand.Rand) []byte {
+			return h.verifQuery([]byte{0x0a, 0x02, 1, 2}, uint16(r.Intn(0x7fff))) // a 2-byte secret
+		}},
+		{"valid-registration(answered)", func(r *rand.Rand) []byte { return h.verifQuery(h.ping, uint16(r.Intn(0x7fff))) }},
+	}
+	classes = append(classes, junk{"mixed", func(r *rand.Rand) []byte { return classes[r.Intn(5)].gen(r) }})
+	for _, jc := range classes {
+		for _, sz := range []struct{ n, sockets int }{{300, 1}, {1000, 1}, {5000, 4}} {
+			h.rec.Case(map[string]interface{}{"alive_after_junk": fmt.Sprintf("%d x %s from %d socket(s)", sz.n, jc.name, sz.sockets)})
+			var wg sync.WaitGroup
+			for k := 0; k < sz.sockets; k++ {
+				wg.Add(1)
+				go func(k int) {
+					defer wg.Done()
+					r := kit.Rand(fmt.Sprintf("c11-dnsreg-alive/%s/%d/%d", jc.name, sz.n, k))
+					uc, err := net.DialUDP("udp", nil, h.addr)
+					if err != nil {
+						panic(fmt.Sprintf("verif infrastructure: %v", err))
+					}
+					defer uc.Close()
+					s := &verifC11Sock{c: uc}
+					for i, in := k, 0; i < sz.n && !h.dead.Load(); i += sz.sockets {
+						if q := jc.gen(r); q != nil {
+							uc.Write(q)
+							h.sent.Add(1)
+							h.rec.Count("junk_sent["+jc.name+"]", 1)
+						}
+						if in++; in >= 100/sz.sockets+8 {
+							in = 0
+							h.verifPing(s)
+						}
+					}
+					h.verifPing(s)
+				}(k)
+			}
+			wg.Wait()
+			h.rec.Count("evaluations", sz.n)
+			h.rec.Distinct("nontrivial", "alive-after-junk", jc.name, sz.n, sz.sockets)
+			if h.dead.Load() {
+				return
 			}
 		}
 	}
-	return false
+	if n := runtime.NumGoroutine(); n > 10000 {
+		stable, parked, sample := kit.C11Lingering("RecvAndRespond.func1")
+		d := map[string]interface{}{"request_goroutines_lingering": stable, "of_them_parked": parked, "sample_stack": sample}
+		if stable > 10000 && parked > 10000 {
+			h.rec.Violation("resource:goroutines-leaked:dns-registrar", fmt.Sprintf("%d request goroutines linger, parked, after the bursts have settled (three scans)", parked), d)
+		} else {
+			h.rec.Inconclusive("many goroutines after the bursts, but not stably parked request goroutines", d)
+		}
+	}
 }
 
 func (h *verifC11DNS) verifExec(c *kit.C11Case) string {
@@ -214,6 +337,9 @@ func (h *verifC11DNS) verifExec(c *kit.C11Case) string {
 		h.tooLong.Add(1)
 		return out + "/direct-only(too long for one DNS name)"
 	}
+	if h.dead.Load() {
+		return out + "/not-sent(registrar no longer answers)"
+	}
 	var s *verifC11Sock
 	select {
 	case s = <-h.pool:
@@ -229,9 +355,7 @@ func (h *verifC11DNS) verifExec(c *kit.C11Case) string {
 	s.since++
 	if s.since >= 32 {
 		s.since = 0
-		if !h.verifPing(s) {
-			h.rec.Inconclusive("a well-formed DNS registration got no answer within 3 x 20 s although the process is alive (datagram loss?)", nil)
-		}
+		h.verifPing(s) // decides itself (violation / inconclusive) when the control is not answered
 	}
 	select {
 	case h.pool <- s:
@@ -248,18 +372,19 @@ func TestVerifC11DNS(t *testing.T) {
 	defer rec.Close()
 	h := verifC11DNSSetup(t, true)
 	h.rec = rec
+	h.verifAlive() // ONE registrar for the whole run: still answering after bursts of junk?
 	kit.C11Drive(rec, kit.C11Entry{Name: verifC11DNSEntry, N: kit.Tier(40000, 500000), Workers: 4, Budget: 120 * time.Second,
 		Gen: verifC11DNSGen, Exec: h.verifExec, SampleEvery: 5000})
 	// everything that was sent must have been read and fully processed before the verdict "survived"
-	uc, err := net.DialUDP("udp", nil, h.addr)
-	if err != nil {
-		t.Fatal(err)
-	}
-	if !h.verifPing(&verifC11Sock{c: uc}) {
-		rec.Inconclusive("the final well-formed DNS registration got no answer within 3 x 20 s", nil)
-	}
-	if left := kit.WaitNoGoroutineIn(60*time.Second, "RecvAndRespond.func1"); left != nil {
-		rec.Inconclusive("request goroutines of the responder still running 60 s after the last datagram", map[string]interface{}{"count": len(left), "first": left[0].Raw})
+	if !h.dead.Load() {
+		uc, err := net.DialUDP("udp", nil, h.addr)
+		if err != nil {
+			t.Fatal(err)
+		}
+		h.verifPing(&verifC11Sock{c: uc})
+		if left := kit.WaitNoGoroutineIn(60*time.Second, "RecvAndRespond.func1"); left != nil {
+			rec.Inconclusive("request goroutines of the responder still running 60 s after the last datagram", map[string]interface{}{"count": len(left), "first": left[0].Raw})
+		}
 	}
 	select {
 	case err := <-h.serveEr:
@@ -268,6 +393,7 @@ func TestVerifC11DNS(t *testing.T) {
 	}
 	rec.Count("datagrams_sent", int(h.sent.Load()))
 	rec.Count("pings_sent", int(h.pings.Load()))
+	rec.Count("controls_answered", int(h.controlsOK.Load()))
 	rec.Count("answers_received", int(h.answers.Load()))
 	rec.Count("inputs_too_long_for_one_dns_name", int(h.tooLong.Load()))
 	rec.Count("messages_handed_to_zmq", int(h.snd.n.Load()))
